@@ -3,8 +3,6 @@
 package runtime
 
 import (
-	"math"
-
 	"github.com/arnodel/golua/code"
 )
 
@@ -53,19 +51,16 @@ func VerifH_C16_prepfor_numbers() {
 		return
 	}
 	verifAssert(err == nil && next != nil, "no-error")
-	s1, l1, p1 := c.registers[1], c.registers[2], c.registers[3]
+	// only what Lua code can observe is asserted: whether the loop is entered
+	// and the first value of the control variable (how the limit and the step
+	// are kept in the hidden registers is the implementation's business)
+	s1 := c.registers[1]
 	intLoop := start.NumberType() == IntType && step.NumberType() == IntType
-	// loop runs with integers exactly when start and step are integers
 	if intLoop {
 		verifReach("integer-loop")
-		verifAssert(vhSameNum(p1, step), "int-step-kept")
 	} else {
 		verifReach("float-loop")
-		verifAssert(p1.NumberType() == FloatType, "float-step")
-		f, _ := ToFloat(step)
-		verifAssert(p1.AsFloat() == f, "step-value-kept")
 	}
-	verifAssert(vhSameNum(l1, stop), "limit-kept-as-given")
 	// the loop is skipped exactly when start already passes the limit
 	stepPos := (step.NumberType() == IntType && step.AsInt() > 0) || (step.NumberType() == FloatType && step.AsFloat() > 0)
 	startNaN := vhIsNaN(start)
@@ -120,81 +115,95 @@ func VerifH_C16_prepfor_non_number() {
 	verifAssert(err != nil && next == nil, "non-number-is-error")
 }
 
-// K2: advance, one inductive step from any prepared state.
-func VerifH_C16_advfor_int() {
-	_, t := vhNewRuntime()
-	v, step := nondetInt64("v"), nondetInt64("step")
-	stopFloat := verifChoose("stopkind", 2) == 1
-	stop := vhNumber("stop", stopFloat)
-	verifAssume(step != 0 && !vhIsNaN(stop))
-	cur := IntValue(v)
-	// prepared state: the current value does not pass the limit
-	if step > 0 {
-		verifAssume(!vhNumLt(stop, cur))
-	} else {
-		verifAssume(!vhNumLt(cur, stop))
-	}
-	c, _ := vhNewCont(t, []code.Opcode{code.AdvForLoop(vhR1, vhR2, vhR3)}, 4, 0, nil, 0)
-	c.registers[1], c.registers[2], c.registers[3] = cur, stop, IntValue(step)
+// K2: iteration.  The hidden loop state is whatever the real prepfor leaves in
+// the three registers; the real advfor is then run on that state.  Since the
+// start value is arbitrary, "prepare from v, advance" is one step of the loop
+// from any value the control variable can have; two (quick) or three
+// (thorough) consecutive steps are checked against the manual's progression
+// computed from the ORIGINAL operands, so the check does not depend on how
+// the implementation represents the limit or the step.
+func vhForStep(t *Thread, op code.Opcode, r1, r2, r3 Value) (Value, Value, Value, bool) {
+	c, _ := vhNewCont(t, []code.Opcode{op}, 4, 0, nil, 0)
+	c.registers[1], c.registers[2], c.registers[3] = r1, r2, r3
 	next, err := c.RunInThread(t)
-	verifAssert(err == nil && next != nil, "no-error")
-	s1 := c.registers[1]
-	verifAssert(vhSameNum(c.registers[2], stop) && vhSameNum(c.registers[3], IntValue(step)), "limit-and-step-untouched")
-	// mathematical next value v+step, in 65 bits: overflow means the loop ends
-	sum := v + step
-	overflow := (step > 0 && sum < v) || (step < 0 && sum > v)
-	var passes bool
-	if !overflow {
-		if step > 0 {
-			passes = vhNumLt(stop, IntValue(sum))
-		} else {
-			passes = vhNumLt(IntValue(sum), stop)
-		}
-	}
-	if overflow || passes {
-		verifReach("loop-ends")
-		verifAssert(s1.IsNil(), "ends-when-passing-limit-or-overflowing")
-	} else {
-		verifReach("loop-continues")
-		verifAssert(vhSameNum(s1, IntValue(sum)), "next-value-is-v+step")
-		// ranking function: the distance to the limit strictly decreases
-		if step > 0 {
-			verifAssert(sum > v, "progress-up")
-		} else {
-			verifAssert(sum < v, "progress-down")
-		}
-	}
+	return c.registers[1], c.registers[2], c.registers[3], err == nil && next != nil
 }
 
-func VerifH_C16_advfor_float() {
+func VerifH_C16_loop_progression() {
 	_, t := vhNewRuntime()
-	v, step := nondetFloat64("v"), nondetFloat64("step")
-	stopFloat := verifChoose("stopkind", 2) == 1
-	stop := vhNumber("stop", stopFloat)
-	verifAssume(step != 0 && step == step && v == v && !vhIsNaN(stop))
-	cur := FloatValue(v)
-	if step > 0 {
-		verifAssume(!vhNumLt(stop, cur))
-	} else {
-		verifAssume(!vhNumLt(cur, stop))
+	k := verifChoose("kinds", 8)
+	start := vhNumber("start", k&1 != 0)
+	stop := vhNumber("stop", k&2 != 0)
+	step := vhNumber("step", k&4 != 0)
+	verifAssume(!vhIsNaN(stop) && !vhIsNaN(step) && !vhIsNaN(start))
+	stepZero := (step.NumberType() == IntType && step.AsInt() == 0) || (step.NumberType() == FloatType && step.AsFloat() == 0)
+	verifAssume(!stepZero)
+	intLoop := start.NumberType() == IntType && step.NumberType() == IntType
+	if !intLoop && stop.NumberType() == IntType && verifTier() == 0 {
+		return // float progression against an integer limit: thorough tier (slow floating-point queries)
 	}
-	c, _ := vhNewCont(t, []code.Opcode{code.AdvForLoop(vhR1, vhR2, vhR3)}, 4, 0, nil, 0)
-	c.registers[1], c.registers[2], c.registers[3] = cur, stop, FloatValue(step)
-	next, err := c.RunInThread(t)
-	verifAssert(err == nil && next != nil, "no-error")
-	s1 := c.registers[1]
-	sum := v + step
-	var passes bool
-	if step > 0 {
-		passes = vhNumLt(stop, FloatValue(sum))
-	} else {
-		passes = vhNumLt(FloatValue(sum), stop)
+	stepPos := (step.NumberType() == IntType && step.AsInt() > 0) || (step.NumberType() == FloatType && step.AsFloat() > 0)
+	passes := func(v Value) bool {
+		if stepPos {
+			return vhNumLt(stop, v)
+		}
+		return vhNumLt(v, stop)
 	}
-	if passes {
-		verifReach("loop-ends")
-		verifAssert(s1.IsNil(), "ends-when-passing-limit")
-	} else if sum == sum {
-		verifReach("loop-continues")
-		verifAssert(s1.NumberType() == FloatType && math.Float64bits(s1.AsFloat()) == math.Float64bits(sum), "next-value-is-v+step")
+	r1, r2, r3, ok := vhForStep(t, code.PrepForLoop(vhR1, vhR2, vhR3), start, stop, step)
+	verifAssert(ok, "prepare-succeeds")
+	if !ok {
+		return
+	}
+	// the manual's progression
+	cur := start
+	var fstep float64
+	if !intLoop {
+		f, _ := ToFloat(start)
+		cur = FloatValue(f)
+		fstep, _ = ToFloat(step)
+	}
+	// float progressions: one advance (two in the thorough tier); integer ones: two (three)
+	steps := 1
+	if intLoop {
+		steps = 2
+	}
+	if verifTier() == 1 {
+		steps++
+	}
+	for it := 0; ; it++ {
+		if passes(cur) {
+			verifReach("loop-ends")
+			verifAssert(r1.IsNil(), "loop-ends-exactly-when-the-next-value-passes-the-limit")
+			return
+		}
+		verifAssert(vhSameNum(r1, cur), "control-variable-follows-the-progression")
+		if r1.IsNil() || it == steps {
+			verifReach("loop-continues")
+			return
+		}
+		// next value of the progression
+		if intLoop {
+			v, st := cur.AsInt(), step.AsInt()
+			sum := v + st
+			if (st > 0 && sum < v) || (st < 0 && sum > v) {
+				// an integer loop never wraps around: it ends at overflow
+				r1, r2, r3, ok = vhForStep(t, code.AdvForLoop(vhR1, vhR2, vhR3), r1, r2, r3)
+				verifReach("ends-at-overflow")
+				verifAssert(ok && r1.IsNil(), "integer-loop-ends-at-overflow")
+				return
+			}
+			cur = IntValue(sum)
+		} else {
+			f := cur.AsFloat() + fstep
+			if f != f {
+				return // inf + -inf: not determined
+			}
+			cur = FloatValue(f)
+		}
+		r1, r2, r3, ok = vhForStep(t, code.AdvForLoop(vhR1, vhR2, vhR3), r1, r2, r3)
+		verifAssert(ok, "advance-succeeds")
+		if !ok {
+			return
+		}
 	}
 }
